@@ -3,6 +3,7 @@
 package props
 
 import (
+	"chgosim/refproto"
 	"fmt"
 	"runtime"
 	"runtime/debug"
@@ -141,6 +142,8 @@ type Env struct {
 	// default reports machinery trouble, properties that promise a return
 	// turn it into a violation.
 	OnHang func(info string)
+	// OnStandstill, when set, judges a run that used up its decision budget.
+	OnStandstill func(info string)
 }
 
 type seededReader struct{ s uint64 }
@@ -254,7 +257,13 @@ func Bubble(t *testing.T, c *choice.Stream, r *Result, opt RunOpt, setup func(e 
 				buf = buf[:runtime.Stack(buf, true)]
 				r.HangInfo = fmt.Sprintf("parked: %v\n%s", sim.Parked(), strings.Join(LibGoroutines(string(buf)), "\n\n"))
 			case sched.Budget:
-				r.Harness("decision budget exhausted after %d steps; parked: %v", sim.Step, sim.Parked())
+				if e.OnStandstill != nil {
+					// e.g. a client polling for an answer that cannot come: the run
+					// is going nowhere although steps are being taken
+					e.OnStandstill(fmt.Sprintf("decision budget exhausted after %d steps; parked: %v", sim.Step, sim.Parked()))
+				} else {
+					r.Harness("decision budget exhausted after %d steps; parked: %v", sim.Step, sim.Parked())
+				}
 			}
 			if out == sched.Done {
 				sim.Quiesce(5000)
@@ -335,3 +344,30 @@ func LibGoroutines(all string) []string {
 
 // Since is a helper for simulated durations.
 func Since(t time.Time) time.Duration { return time.Since(t) }
+
+// HangJudge gives fault-free scenarios a verdict when the simulated system
+// stops moving: if what the client wrote does not parse, or ends in the middle
+// of a packet while the client waits for an answer, the server can never
+// respond, and that is the library's doing, not the simulator's.
+func HangJudge(e *Env, r *Result, conn *simnet.Conn, srv *simnet.Server, serverRev int) {
+	judge := func(info string) {
+		out := conn.OutCopy()
+		p := refproto.ClientParser{ServerRev: serverRev}
+		for {
+			pkt, err := p.Next(out)
+			if err != nil {
+				r.Violate("malformed-stream", "malformed", "the exchange came to a standstill and the client stream does not parse: %v (server: %v)\n%s", err, srv.Parser.Err, info)
+				return
+			}
+			if pkt == nil {
+				break
+			}
+		}
+		if p.Pos != len(out) {
+			r.Violate("malformed-stream", "incomplete", "the exchange came to a standstill: the client waits for the server, but the %d bytes it wrote end %d bytes into a packet that is never completed (server: %v)\n%s", len(out), len(out)-p.Pos, srv.Parser.Err, info)
+			return
+		}
+		r.Harness("simulated system made no progress: %s", info)
+	}
+	e.OnHang, e.OnStandstill = judge, judge
+}
